@@ -55,6 +55,27 @@ def one(name):
     return (name, prop, ", ".join("./check " + c for c in caught) or "MISSED", meta.get("needs_to_manifest", ""))
 
 
+def write_status():
+    """seeded/STATUS.md from the detection results recorded in every meta.json"""
+    rows = []
+    for n in sorted(os.listdir(os.path.join(VERIF, "seeded"))):
+        f = os.path.join(VERIF, "seeded", n, "meta.json")
+        if not os.path.exists(f):
+            continue
+        m = json.load(open(f))
+        got = m.get("detected_now_by")
+        caught = "not run" if got is None else (", ".join("./check " + c for c in got) or "MISSED")
+        rows.append((n, m["breaks_property"], caught, m.get("detection_run", ""), m.get("needs_to_manifest", "").replace("|", "\\|")))
+    with open(os.path.join(VERIF, "seeded", "STATUS.md"), "w") as fh:
+        fh.write("# Seeded changes and the quick checks that catch them (written by lib/sweep_seeded.py)\n\n"
+                 "Each change was applied to a scratch worktree of /repo and the quick tier of the named checks was run against that tree (VERIF_REPO).\n\n"
+                 "| seeded change | breaks | caught by | run | needs to manifest |\n|---|---|---|---|---|\n")
+        for r in rows:
+            fh.write("| %s | %s | %s | %s | %s |\n" % r)
+        c = len([r for r in rows if "./check" in r[2]])
+        fh.write("\n%d of %d caught.\n" % (c, len(rows)))
+
+
 def main():
     args = sys.argv[1:]
     jobs = 1
@@ -71,13 +92,7 @@ def main():
             rows = list(ex.map(one, names))
     finally:
         shutil.rmtree(top, ignore_errors=True)
-    if not args:
-        with open(os.path.join(VERIF, "seeded", "STATUS.md"), "w") as fh:
-            fh.write("# Seeded changes and the quick checks that catch them (written by lib/sweep_seeded.py)\n\n| seeded change | breaks | caught by | needs to manifest |\n|---|---|---|---|\n")
-            for r in rows:
-                fh.write("| %s | %s | %s | %s |\n" % r)
-            c = len([r for r in rows if r[2] != "MISSED" and "./check" in r[2]])
-            fh.write("\n%d of %d caught.\n" % (c, len(rows)))
+    write_status()
     for r in rows:
         print(r[0], "->", r[2])
     return 0
